@@ -719,6 +719,12 @@ func (v *Protocol) WritePacket(pkt Packet, streamID int) (err error) {
 }
 
 func (v *Protocol) onPacketWriten(m *Message, pkt Packet) (err error) {
+	switch pkt := pkt.(type) {
+	case *SetChunkSize:
+		// The peer uses the announced chunk size for the following chunks, so must we.
+		v.output.opt.chunkSize = pkt.ChunkSize
+	}
+
 	return
 }
 
